@@ -680,6 +680,48 @@ func isDotStarLiteral(re *syntax.Regexp) bool {
 	return true
 }
 
+// tailIsLiteralSet reports whether everything after the leading `.*` of a pattern that passed
+// hasDotStarPrefix is a finite set of literals (literals, alternations, concatenations and captures
+// of them, without case folding). Only then does an occurrence of one of the suffix literals prove
+// a match of the whole pattern, so that the reverse scan can be skipped: .*\.(txt|log) qualifies,
+// .*[a-z]+\.(txt|log) does not ("1.txt" contains a suffix but no match).
+func tailIsLiteralSet(re *syntax.Regexp) bool {
+	for re.Op == syntax.OpCapture && len(re.Sub) > 0 {
+		re = re.Sub[0]
+	}
+	if re.Op != syntax.OpConcat || len(re.Sub) < 2 {
+		return false
+	}
+	first := re.Sub[0]
+	for first.Op == syntax.OpCapture && len(first.Sub) > 0 {
+		first = first.Sub[0]
+	}
+	if first.Op != syntax.OpStar || first.Flags&syntax.NonGreedy != 0 || len(first.Sub) != 1 || first.Sub[0].Op != syntax.OpAnyCharNotNL {
+		return false
+	}
+	for _, sub := range re.Sub[1:] {
+		if !isFiniteLiteralExpr(sub) {
+			return false
+		}
+	}
+	return true
+}
+
+func isFiniteLiteralExpr(re *syntax.Regexp) bool {
+	switch re.Op {
+	case syntax.OpLiteral:
+		return re.Flags&syntax.FoldCase == 0
+	case syntax.OpCapture, syntax.OpConcat, syntax.OpAlternate:
+		for _, sub := range re.Sub {
+			if !isFiniteLiteralExpr(sub) {
+				return false
+			}
+		}
+		return len(re.Sub) > 0
+	}
+	return false
+}
+
 // isWildcardSubexpression checks if a subexpression acts as a "wildcard" that can
 // consume variable-length input. Used by isSafeForReverseSuffix to identify patterns
 // suitable for reverse suffix search.
